@@ -153,6 +153,80 @@ Proof. exact render_tree_perm_covered. Qed.
 Theorem C07_pure_maps_ok_suffices : forall cfg c t, covered cfg t c -> pure_maps_ok cfg t c -> maps_ok cfg t c.
 Proof. exact pure_maps_ok_covered. Qed.
 
+(* ------------------------------------------------------------------ (c) threaded: the precise condition *)
+(* maps_ok asks the Dict keys to be settled at the table the render STARTS from.  A key may as
+   well name a package that an EARLIER part of the same tree imports (first statement
+   fmt.Println(...), later a Dict with key fmt.X): what matters is the table the traversal has
+   when it ARRIVES at the Dict.  [maps_safe cfg t c] says exactly that by following the
+   traversal; its loops mirror Group.renderItems, Statement.render and the second Dict pass and
+   hand to each item the table it is rendered from: *)
+Theorem C07_maps_safe_group_items : forall cfg (P : table -> code -> Prop) t x l,
+  (forall t0, prereg cfg t x = Ok t0 ->          (* the group registers a package-token item first *)
+     (is_null cfg t0 x = true -> gitems_safe cfg P t0 l) /\
+     (is_null cfg t0 x = false ->
+        P t0 x /\ forall ta s, render cfg false t0 x = Ok (ta, s) -> gitems_safe cfg P ta l)) ->
+  gitems_safe cfg P t (x :: l).
+Proof. exact gs_cons. Qed.
+
+Theorem C07_maps_safe_stmt_items : forall cfg (P : table -> code -> Prop) t x l,
+  (is_null cfg t x = true -> sitems_safe cfg P t l) ->
+  (is_null cfg t x = false ->
+     P t x /\ forall ctx ta s, render cfg ctx t x = Ok (ta, s) -> sitems_safe cfg P ta l) ->
+  sitems_safe cfg P t (x :: l).
+Proof. exact ss_cons. Qed.
+
+Theorem C07_maps_safe_pass2 : forall cfg (P : table -> code -> Prop) t kv l,
+  P t (fst kv) ->
+  (forall ta s, render cfg false t (fst kv) = Ok (ta, s) ->
+     P ta (snd kv) /\ forall tb s', render cfg false ta (snd kv) = Ok (tb, s') -> pass2_safe cfg P tb l) ->
+  pass2_safe cfg P t (kv :: l).
+Proof. exact p2_cons. Qed.
+
+Theorem C07_maps_safe_empty_loops : forall cfg (P : table -> code -> Prop) t,
+  gitems_safe cfg P t [] /\ sitems_safe cfg P t [] /\ pass2_safe cfg P t [].
+Proof. intros. repeat split; constructor. Qed.
+
+Theorem C07_maps_safe_group : forall cfg t gid name o cl sep multi items,
+  (str_eqb name s_types && forallb (is_null cfg t) items = false -> gitems_safe cfg (maps_safe cfg) t items) ->
+  maps_safe cfg t (CGroup gid name o cl sep multi items).
+Proof. exact ms_group. Qed.
+
+Theorem C07_maps_safe_stmt : forall cfg t items,
+  sitems_safe cfg (maps_safe cfg) t items -> maps_safe cfg t (CStmt items).
+Proof. exact ms_stmt. Qed.
+
+(* a Dict reached with table t: every surviving key is settled at t (first pass), their texts
+   are pairwise distinct, and the second pass - over the pairs in key order - is safe *)
+Theorem C07_maps_safe_dict : forall cfg t pairs,
+  (forall kv, In kv pairs -> live cfg t kv = true ->
+     maps_safe cfg t (fst kv) /\ exists s, render cfg false t (fst kv) = Ok (t, s)) ->
+  NoDup (map (fun kv => rtxt cfg t (fst kv)) (filter (live cfg t) pairs)) ->
+  pass2_safe cfg (maps_safe cfg) t (isort_by (fun kv => rtxt cfg t (fst kv)) (filter (live cfg t) pairs)) ->
+  maps_safe cfg t (CDict pairs).
+Proof. exact ms_dict. Qed.
+
+Theorem C07_maps_safe_tag_leaves : forall cfg t kvs tk s,
+  (NoDup (map fst kvs) -> maps_safe cfg t (CTag kvs)) /\
+  maps_safe cfg t CNil /\ maps_safe cfg t CNilStmt /\ maps_safe cfg t CNilGroup /\ maps_safe cfg t (CTok tk) /\
+  maps_safe cfg t (CComment s).
+Proof. intros. split; [exact (ms_tag cfg t kvs) | repeat split; constructor]. Qed.
+
+(* TREES, threaded.  For EVERY configuration: a tree that is safe from t and any variant of it
+   under other iteration orders render from t to the same result. *)
+Theorem C07_tree_perm_threaded : forall cfg c c' t ctx,
+  tree_perm c c' -> maps_safe cfg t c -> render cfg ctx t c = render cfg ctx t c'.
+Proof. exact render_tree_perm_threaded_eq. Qed.
+
+(* it subsumes the condition at the starting table *)
+Theorem C07_maps_ok_is_safe : forall cfg, cfg_ok cfg -> forall c t, maps_ok cfg t c -> maps_safe cfg t c.
+Proof. exact maps_ok_safe. Qed.
+
+Theorem C07_file_raw_tree_perm_threaded : forall f items',
+  Forall2 tree_perm (f_items f) items' ->
+  maps_safe (file_cfg f) (f_imports f) (file_group f) ->
+  file_raw (with_items f items') = file_raw f.
+Proof. exact file_raw_tree_perm_threaded. Qed.
+
 (* an executable check of the side condition *)
 Theorem C07_maps_okb_sound : forall cfg t c, maps_okb cfg t c = true -> maps_ok cfg t c.
 Proof. exact maps_okb_sound. Qed.
@@ -245,4 +319,22 @@ Proof.
     apply Forall2_refl_all. intros kv. split; apply tp_refl.
   - split; [apply maps_okb_sound; vm_compute; reflexivity|].
     split; [intros H; discriminate | vm_compute; reflexivity].
+Qed.
+
+(* threaded: a fresh table; the first statement imports fmt, the Dict of the second statement
+   has two KEYS that are qualified identifiers of fmt and a value that imports os.  The keys
+   are not settled at the empty table (maps_ok fails), they are where the Dict is reached
+   (maps_safe holds), and both orders write the same bytes and table. *)
+Example C07_threaded_example :
+  maps_safe th_cfg [] (th_tree th_pairs) /\ ~ maps_ok th_cfg [] (th_tree th_pairs) /\
+  tree_perm (th_tree th_pairs) (th_tree (rev th_pairs)) /\
+  render th_cfg false [] (th_tree (rev th_pairs)) =
+    Ok ([(S "fmt", mkdef (S "fmt") false); (S "os", mkdef (S "os") false)],
+        [x0a] ++ S "fmt.Println" ++ [x0a] ++ S "{" ++ [x0a] ++ S "fmt.A:os.X," ++ [x0a] ++ S "fmt.B:2," ++ [x0a] ++ S "}").
+Proof.
+  split; [exact th_tree_safe|]. split; [exact th_tree_not_ok|]. split; [|vm_compute; reflexivity].
+  apply tp_group. constructor; [apply tp_refl|]. constructor; [|constructor].
+  apply tp_stmt. constructor; [|constructor]. apply tp_group. constructor; [|constructor].
+  apply tp_dict with (pairs' := th_pairs); [|apply perm_swap].
+  apply Forall2_refl_all. intros kv. split; apply tp_refl.
 Qed.
